@@ -449,8 +449,9 @@ type deferRec struct {
 }
 
 type retSite struct {
-	st   *State
-	vals []Val
+	st    *State
+	vals  []Val
+	instr ssa.Instruction
 }
 
 type loopInfo struct {
@@ -797,7 +798,7 @@ func (vc *VC) execBlock(fr *Frame, b *ssa.BasicBlock, st *State, back map[[2]int
 			for _, r := range x.Results {
 				vals = append(vals, vc.value(fr, r))
 			}
-			fr.retVals = append(fr.retVals, retSite{st: st, vals: vals})
+			fr.retVals = append(fr.retVals, retSite{st: st, vals: vals, instr: x})
 			fr.endSt[b] = st
 			return
 		case *ssa.Panic:
